@@ -67,6 +67,13 @@ for line in sys.stdin.read().split('\n'):
                 v = Version(p[2])
             except InvalidVersion:
                 out.append('EV'); continue
+            # packaging keeps the clauses in a set whose equality canonicalises
+            # versions (trailing zeros stripped): '~=0.2' and '~=0.2.0.0' collapse
+            # into one clause although they mean different things. Such a
+            # specifier list is not answered (out of the differential's domain).
+            clauses = set(c.strip().replace(' ', '') for c in p[1].split(',') if c.strip())
+            if len(s._specs) < len(clauses):
+                out.append('EQ'); continue
             pre = None
             if len(p) > 3 and p[3] == 'pre':
                 pre = True
